@@ -82,31 +82,30 @@ Section Lin.
   Definition swap_rows {X} (d : X) (l : list X) (i j : nat) : list X :=
     upd (upd l i (nth j l d)) j (nth i l d).
   (* None when a pivot is exactly zero *)
+  Definition elim_row (j : nat) (piv : T) (ab : Mat * Vec) (i : nat) : Mat * Vec :=
+    let d := odiv O (mg (fst ab) i j) piv in
+    (upd (fst ab) i (vsub (nth i (fst ab) []) (vscale d (nth j (fst ab) []))),
+     upd (snd ab) i (osub O (vg (snd ab) i) (omul O d (vg (snd ab) j)))).
+  Definition elim_col (n : nat) (st : option (Mat * Vec)) (j : nat) : option (Mat * Vec) :=
+    match st with
+    | None => None
+    | Some (A, b) =>
+      let p := argmax_abs A j (iota j (n - j)) j in
+      let A := swap_rows [] A j p in let b := swap_rows t0 b j p in
+      let piv := mg A j j in
+      if oeqb O piv t0 then None else
+      Some (fold_left (elim_row j piv) (iota (S j) (n - S j)) (A, b))
+    end.
+  Definition back_row (n : nat) (U : Mat) (c x : Vec) (i : nat) : Vec :=
+    let s := fold_left (fun s j => oadd O s (omul O (mg U i j) (vg x j))) (iota (S i) (n - S i)) t0 in
+    upd x i (odiv O (osub O (vg c i) s) (mg U i i)).
+  Definition back_subst (n : nat) (U : Mat) (c : Vec) : Vec :=
+    fold_left (back_row n U c) (rev (iota 0 n)) (vzeros t0 n).
   Definition solve_pp (A : Mat) (b : Vec) : option Vec :=
     let n := length A in
-    let step (st : option (Mat * Vec)) (j : nat) : option (Mat * Vec) :=
-      match st with
-      | None => None
-      | Some (A, b) =>
-        let p := argmax_abs A j (iota j (n - j)) j in
-        let A := swap_rows [] A j p in let b := swap_rows t0 b j p in
-        let piv := mg A j j in
-        if oeqb O piv t0 then None else
-        Some (fold_left (fun (ab : Mat * Vec) i =>
-                let '(A, b) := ab in
-                let d := odiv O (mg A i j) piv in
-                (upd A i (vsub (nth i A []) (vscale d (nth j A []))),
-                 upd b i (osub O (vg b i) (omul O d (vg b j)))))
-              (iota (S j) (n - S j)) (A, b))
-      end in
-    match fold_left step (iota 0 n) (Some (A, b)) with
+    match fold_left (elim_col n) (iota 0 n) (Some (A, b)) with
     | None => None
-    | Some (U, c) =>
-      Some (fold_left (fun x i =>
-              let s := fold_left (fun s j => oadd O s (omul O (mg U i j) (vg x j)))
-                         (iota (S i) (n - S i)) t0 in
-              upd x i (odiv O (osub O (vg c i) s) (mg U i i)))
-            (rev (iota 0 n)) (vzeros t0 n))
+    | Some (U, c) => Some (back_subst n U c)
     end.
   Definition minverse (A : Mat) : option Mat :=
     let n := length A in
